@@ -599,7 +599,28 @@ def c10_10(ctx):
                 out.append(ctx.ok(spec, "`for %s in %s` runs to completion (no break / return inside)" % (ast.unparse(lp.stmt.target), it), lp.stmt, mod, key="exhaustive:" + it))
         if not seen:
             raise AnalysisError("%s: no loop over the inputs found" % spec)
+        # whether this signer signs an input must not depend on the signatures other signers have already put there: a `continue`
+        # (or any skip) taken because enough signatures are present makes the set of signatures, the PSBT bytes and the final
+        # transaction depend on who signed first
+        for t in cfg.tests():
+            if not t.loops:
+                continue
+            about_sigs = any(isinstance(x, ast.Attribute) and x.attr == "sigs" for x in ast.walk(expand(fn, t.id, t.ast, depth=3)))
+            if not about_sigs:
+                continue
+            skips = [b for b, lab in cfg.succ[t.id] if cfg.nodes[b].kind in ("continue", "break", "return") or
+                     (cfg.nodes[b].ast is not None and isinstance(cfg.nodes[b].ast, (ast.Continue, ast.Break)))]
+            if skips:
+                out.append(ctx.bad(spec, "`%s` skips an input depending on the partial signatures already present: with more than m willing cosigners the signatures kept "
+                                         "(and the bytes of the PSBT and of the final transaction) depend on the order in which they sign" % ast.unparse(t.ast), t.ast, mod,
+                                   key="sign-independent"))
     return out
+
+
+def c10_16(ctx):
+    """the compact-size codec every PSBT length goes through (shared with C04.3): writer tiles contiguous and minimal, reader agrees"""
+    from rules.C04 import c04_3
+    return c04_3(ctx)
 
 
 def c10_12(ctx):
@@ -821,5 +842,6 @@ OBLIGATIONS = [
     ("C10.13", "INDEPENDENCE", c10_13),
     ("C10.14", "OWNERSHIP", c10_14),
     ("C10.15", "INDEPENDENCE emit", c10_15),
+    ("C10.16", "RANGE partition+agreement", c10_16),
 ]
 FLOORS = {"C10.2": 14, "C10.3": 20, "C10.4": 8, "C10.5": 20, "C10.6": 6, "C10.8": 2}
